@@ -543,10 +543,81 @@ func (w *walker) randomize(r *Rng) {
 	}
 }
 
+// misuse: NON-conformant call sequences of the model interface (an accept after a revert, two reverts, two proposals before
+// one accept, an accept without a proposal) on the unlimited reference instance, from a random canonical state.  C01 and C02
+// say nothing about such histories; C11's aggregates must hold after ANY history (aggregates_consistent_any_history), so
+// only those clauses are evaluated, Go against Go.
+func (w *walker) misuse(r *Rng) {
+	cm := w.ref.cm
+	n := cm.n()
+	if n == 0 {
+		return
+	}
+	bits := make([]bool, n)
+	p := r.Float()
+	for i := range bits {
+		bits[i] = r.Chance(p)
+	}
+	w.ref.at(bits) // may be cached: set the state explicitly
+	cm.m.Initialise(0)
+	for i, b := range bits {
+		if b {
+			cm.m.SetManagementAction(i, true)
+		}
+	}
+	i, j := r.Intn(n), r.Intn(n)
+	kinds := []string{"propose;revert;accept", "propose;revert;revert", "propose;propose;accept", "accept", "propose;accept;accept", "propose;revert;accept;propose;accept"}
+	kind := kinds[r.Intn(len(kinds))]
+	pn := protect(func() {
+		for _, step := range strings.Split(kind, ";") {
+			switch step {
+			case "propose":
+				cm.tryRandom(i)
+				i = j
+			case "accept":
+				cm.m.AcceptChange()
+			case "revert":
+				cm.m.RevertChange()
+			}
+		}
+	})
+	w.c.Stat("misuse sequence " + kind)
+	if pn != "" {
+		w.c.Stat("misuse sequence panicked: " + clip(pn, 40))
+		cm.m.Initialise(0)
+		return
+	}
+	s := cm.snap()
+	for v := range varNames {
+		sum := 0.0
+		for _, pu := range cm.pus {
+			sum += s.units[pu][v]
+		}
+		if !near(sum, s.totals[v]) {
+			w.fail("C11:total-is-sum-of-units", "catchment:total-not-sum:"+varShort[v],
+				fmt.Sprintf("after the call sequence %s from set %s: %s total %v but planning-unit values sum to %v", kind, bitsStr(bits), varNames[v], s.totals[v], sum))
+		}
+	}
+	if !near(s.totals[3], s.totals[1]+s.totals[2]) {
+		w.fail("C11:tn-is-pn-plus-dn", "catchment:tn-not-pn-plus-dn", fmt.Sprintf("after the call sequence %s from set %s: TN %v PN %v DN %v", kind, bitsStr(bits), s.totals[3], s.totals[1], s.totals[2]))
+	}
+	for _, pu := range cm.pus {
+		u := s.units[pu]
+		if !near(u[3], u[1]+u[2]) {
+			w.fail("C11:tn-is-pn-plus-dn", "catchment:tn-not-pn-plus-dn:unit", fmt.Sprintf("after the call sequence %s from set %s: planning unit %d TN %v PN %v DN %v", kind, bitsStr(bits), pu, u[3], u[1], u[2]))
+			break
+		}
+	}
+	cm.m.Initialise(0)
+}
+
 // randomWalk: conformant histories over the whole alphabet.
 func (w *walker) randomWalk(r *Rng, steps int) {
 	n := w.cm.n()
 	for k := 0; k < steps; k++ {
+		if k%16 == 5 {
+			w.misuse(r)
+		}
 		x := r.Float()
 		switch {
 		case x < 0.72:
